@@ -13,6 +13,7 @@ import EvyV.Driver.LayoutDrv
 import EvyV.Driver.PrattDrv
 import EvyV.Driver.BlocksDrv
 import EvyV.Driver.ScopeDrv
+import EvyV.Driver.CtlDrv
 import EvyV.Driver.StmtDrv
 import EvyV.Gen.Shapes
 /-
@@ -74,6 +75,7 @@ def handle (line : String) : String :=
   | "layoutw" :: rest => PrattDrv.handleLayout rest
   | "blocks" :: rest => BlocksDrv.handle rest
   | "scope" :: rest => ScopeDrv.handle rest
+  | "ctl" :: rest => CtlDrv.handle rest
   | ["fmtk"] => LayoutDrv.handleK ""
   | ["fmtk", w] => LayoutDrv.handleK w
   | ["fmtm"] => LayoutDrv.handleM ""
